@@ -67,6 +67,12 @@ func shrinkOpts(f []string) []shrinkingmap.Option {
 	if len(f) == 1 && f[0] == "default" {
 		return nil // New() without options: ratio 10.0, count 100
 	}
+	if special, ok := map[string]float64{"nan": math.NaN(), "+inf": math.Inf(1), "-inf": math.Inf(-1)}[f[0]]; ok {
+		return []shrinkingmap.Option{ // IEEE specials are legal float32 option values
+			shrinkingmap.WithShrinkingThresholdRatio(float32(special)),
+			shrinkingmap.WithShrinkingThresholdCount(atoi(f[1])),
+		}
+	}
 	num, den, count := atoi(f[0]), atoi(f[1]), atoi(f[2])
 	if den <= 0 {
 		panic("bad ratio")
@@ -470,7 +476,8 @@ var ratios = [][2]int{{0, 1}, {1, 2}, {1, 1}, {3, 2}, {2, 1}, {3, 1}}
 
 // unusual but legal option values (all exact in float32): a tiny, a huge and a negative ratio;
 // counts 1, MaxInt, negative
-var oddRatios = [][2]int{{1, 1 << 20}, {1 << 40, 1}, {-1, 1}, {10, 1}}
+// ... and ratios that are not exact in float32 (1/3, 2/3, 1/10, 7/5: the quotient deleted/size is rounded the same way)
+var oddRatios = [][2]int{{1, 1 << 20}, {1 << 40, 1}, {-1, 1}, {10, 1}, {1, 3}, {2, 3}, {1, 10}, {7, 5}}
 var oddCounts = []int{1, 100, math.MaxInt, math.MaxInt - 1, -1, math.MinInt}
 
 func genOpts(rng *hx.Rng) string {
@@ -484,6 +491,9 @@ func genOpts(rng *hx.Rng) string {
 	}
 	if rng.Chance(1, 5) {
 		count = hx.Pick(rng, oddCounts)
+	}
+	if rng.Chance(1, 20) {
+		return fmt.Sprintf("new %s %d", hx.Pick(rng, []string{"nan", "+inf", "-inf"}), count)
 	}
 
 	return fmt.Sprintf("new %d %d %d", rt[0], rt[1], count)
